@@ -121,6 +121,11 @@ func (e *Enc) assumeGlobalInvs(st *State) {
 	}
 	for _, cl := range e.P.Spec.GlobalInvs {
 		pkg := e.P.ByName[cl.Pkg]
+		// an invariant over the package-level variables of a package the function's package does not (transitively)
+		// import cannot matter to the function: leave it out (smaller, more stable queries)
+		if pkg != nil && e.pkg != nil && pkg != e.pkg && !importsTransitively(e.pkg, pkg, map[*types.Package]bool{}) {
+			continue
+		}
 		sc := &SCtx{e: e, st: st, old: nil, vars: map[string]Val{}, vtypes: map[string]types.Type{}, pkg: pkg}
 		t, err := sc.evalBool(cl.Expr)
 		if err != nil {
@@ -129,6 +134,19 @@ func (e *Enc) assumeGlobalInvs(st *State) {
 		}
 		e.assume(st.reach, t)
 	}
+}
+
+func importsTransitively(from, to *types.Package, seen map[*types.Package]bool) bool {
+	if seen[from] {
+		return false
+	}
+	seen[from] = true
+	for _, im := range from.Imports() {
+		if im == to || importsTransitively(im, to, seen) {
+			return true
+		}
+	}
+	return false
 }
 
 // checkGlobalInvsAtInitExit: in a package initialiser every global invariant of that package is a postcondition.
